@@ -49,7 +49,7 @@ func (r *Rng) Perm(n int) []int {
 
 // ---------------------------------------------------------------- Coq term emitters
 
-func CoqBytes(b []byte) string {
+func coqBytesPlain(b []byte) string {
 	var sb strings.Builder
 	sb.WriteString("[")
 	for i, c := range b {
@@ -60,6 +60,52 @@ func CoqBytes(b []byte) string {
 	}
 	sb.WriteString("]%N")
 	return sb.String()
+}
+
+// CoqBytes emits a list N; runs of at least 64 equal bytes are run-length encoded with Str.rep.
+func CoqBytes(b []byte) string {
+	type seg struct {
+		lo, hi int
+		run    bool
+	}
+	var segs []seg
+	i, start := 0, 0
+	for i < len(b) {
+		j := i
+		for j < len(b) && b[j] == b[i] {
+			j++
+		}
+		if j-i >= 64 {
+			if i > start {
+				segs = append(segs, seg{start, i, false})
+			}
+			segs = append(segs, seg{i, j, true})
+			start = j
+		}
+		i = j
+	}
+	if start < len(b) || len(segs) == 0 {
+		segs = append(segs, seg{start, len(b), false})
+	}
+	if len(segs) == 1 && !segs[0].run {
+		return coqBytesPlain(b)
+	}
+	out := ""
+	for k := len(segs) - 1; k >= 0; k-- {
+		sg := segs[k]
+		var t string
+		if sg.run {
+			t = fmt.Sprintf("(rep %d%%N %d%%Z)", b[sg.lo], sg.hi-sg.lo)
+		} else {
+			t = coqBytesPlain(b[sg.lo:sg.hi])
+		}
+		if out == "" {
+			out = t
+		} else {
+			out = "(app " + t + " " + out + ")"
+		}
+	}
+	return out
 }
 func CoqStr(s string) string { return CoqBytes([]byte(s)) }
 func CoqZ(z int64) string {
